@@ -31,7 +31,7 @@ HARNESS = os.path.join(VERIF, "harness")
 CHARON = "github.com/obolnetwork/charon/"
 
 # Generous wall-clock watchdogs (seconds) around the child; firing is inconclusive, never a verdict.
-WATCHDOG = {"quick": 900, "thorough": 3 * 3600}
+WATCHDOG = {"quick": 1800, "thorough": 4 * 3600}
 
 LEVEL = "exploration"
 
@@ -304,8 +304,11 @@ def run_check(pid, tier, replay=None):
     race_pkgs = res.get("race_pkgs") or []
     reports = parse_race_logs(rundir)
     race_counted, race_side = {}, {}
+    harness_inner = []
     for rep in reports:
         sig = race_sig(rep)
+        if len(rep["stacks"]) >= 2 and all(innermost_relevant(st).startswith("verifharness") for st in rep["stacks"]):
+            harness_inner.append(sig)
         if race_pkgs and classify_race(rep, race_pkgs, res.get("race_any_side", False)):
             if sig not in race_counted:
                 wpath = os.path.join(replaydir, "%s-%s-%s.txt" % (pid, re.sub(r"[^A-Za-z0-9_.-]+", "_", sig)[:100], seed))
@@ -318,8 +321,8 @@ def run_check(pid, tier, replay=None):
     for sig, (n, wpath) in sorted(race_counted.items()):
         violations.append((sig, "data race reported by the Go race detector (x%d)" % n, wpath))
 
-    harness_races = [sig for sig in race_side
-                     if all(part.startswith("verifharness") for part in sig[len("race/"):].split("|"))]
+    harness_races = sorted(set(harness_inner) | {sig for sig in race_side
+                     if all(part.startswith("verifharness") for part in sig[len("race/"):].split("|"))})
     if harness_races:
         inconclusive.append("data race inside the harness itself (fix the harness): %s" % harness_races[:3])
     if child_rc != 0 and os.path.exists(resfile) and not violations and not inconclusive:
@@ -347,9 +350,14 @@ def run_check(pid, tier, replay=None):
         write_evidence(pid, tier, seed, {"evaluations": 0, "distinct_nontrivial": 0, "rule": "child crashed",
                                           "samples": [v[1] for v in violations][:3]}, wall, len(real), extra_cov, evdir)
 
+    observed = {}
     for (s, w, r) in violations:
         if s in known_sigs:
-            print("KNOWN-FINDING: property=%s %s — %s" % (pid, s, known_sigs[s] or w))
+            observed[s] = w
+    if not replay:
+        for s in sorted(known_sigs):
+            state = "observed in this run: %s" % observed[s] if s in observed else "not observed in this run"
+            print("KNOWN-FINDING: property=%s %s — %s [%s]" % (pid, s, known_sigs[s], state))
     for (s, w, r) in real:
         print("VIOLATION property=%s replay=%s sig=%s what=%s" % (pid, r, s, w))
     if real:
